@@ -4,6 +4,7 @@ package transforms32
 
 import (
 	"image"
+	"unsafe"
 
 	cpu "github.com/klauspost/cpuid/v2"
 )
@@ -18,6 +19,18 @@ func init() {
 }
 
 func AsmYCbCrToGray(c *image.YCbCr, pixels []float32) {
+	// The assembly kernel handles one layout only: 4:4:4 planes that start at the
+	// rectangle's origin (0,0), are exactly as wide as the image (a multiple of 8
+	// pixels), and a 32-byte aligned destination. Everything else goes through the
+	// portable conversion.
+	w, h := c.Rect.Dx(), c.Rect.Dy()
+	if c.SubsampleRatio != image.YCbCrSubsampleRatio444 || c.Rect.Min != (image.Point{}) ||
+		c.YStride != w || c.CStride != w || w%8 != 0 || w <= 0 || h <= 0 ||
+		len(pixels) < w*h || len(c.Y) < w*h || len(c.Cb) < w*h || len(c.Cr) < w*h ||
+		uintptr(unsafe.Pointer(&pixels[0]))%32 != 0 {
+		yCbCrToGrayAlt(c, pixels)
+		return
+	}
 	asmYCbCrToGray(pixels,
 		c.Rect.Min.X, c.Rect.Min.Y, c.Rect.Max.X, c.Rect.Max.Y,
 		c.Y, c.Cb, c.Cr, c.YStride, c.CStride)
